@@ -15,6 +15,40 @@ Inductive hmode := HClaude | HGemini | HCursor.
 (* regenerated from the decorator of _load_handler on every run (32 today) *)
 Definition maxsize : nat := LRU_MAXSIZE.
 
+(* the components of the process state (the four places of the header comment) *)
+Inductive comp := CLru | CMode | CLogCfg | CLogDis.
+
+(* The static inventory of the places where the code can keep something from one call to the next
+   (tools/tables/t18_cache.py reads it off the working tree on every run: functools caches, `global` statements,
+   class-level containers, mutable default arguments, in-function writes to module-level tables, writes to other
+   modules' state, functions that change an object they were handed) against what this model accounts for:
+     - the one functools cache is `lru`;  the `global` statements are those of `mode`, `logcfg`, `logdis`;
+     - the three class-level sets of the vendored parser are constant tables (nothing writes a module-level or
+       class-level table: STATE_TABLE_WRITES is empty, and the residue oracle watches their content);
+     - setup_logging configures the logging module (a write-only sink; C15);
+     - _apply_setting fills the dict parse_config has just created for it.
+   Anything else appearing in the source makes `state_inventory_ok` false: the model is missing process state. *)
+Fixpoint strs_eqb (a b : list str) : bool :=
+  match a, b with
+  | [], [] => true
+  | x :: a', y :: b' => str_eqb x y && strs_eqb a' b'
+  | _, _ => false
+  end.
+Definition expected_caches : list str := [$"cli/__init__.py:_load_handler"].
+Definition expected_globals : list str :=
+  [$"core/config.py:configure_logging:_log_config"; $"core/config.py:configure_logging:_log_disabled";
+   $"core/config.py:log_decision:_log_disabled"; $"dippy.py:main:MODE"].
+Definition expected_class_tables : list str :=
+  [$"vendor/parable.py:Lexer.RESERVED_WORDS"; $"vendor/parable.py:Parser.COND_BINARY_OPS"; $"vendor/parable.py:Parser.COND_UNARY_OPS"].
+Definition expected_foreign_writes : list str :=
+  [$"dippy.py:setup_logging:logging.basicConfig()"; $"dippy.py:setup_logging:logging.raiseExceptions="].
+Definition expected_argument_writes : list str := [$"core/config.py:_apply_setting:settings"].
+Definition state_inventory_ok : bool :=
+  strs_eqb STATE_FUNCTOOLS_CACHES expected_caches && strs_eqb STATE_GLOBAL_STATEMENTS expected_globals &&
+  strs_eqb STATE_CLASS_MUTABLES expected_class_tables && strs_eqb STATE_MUTABLE_DEFAULTS [] &&
+  strs_eqb STATE_TABLE_WRITES [] && strs_eqb STATE_FOREIGN_WRITES expected_foreign_writes &&
+  strs_eqb STATE_ARGUMENT_WRITES expected_argument_writes.
+
 Section Cache.
   Variable value : Type.                 (* an imported handler module (or None after ImportError) *)
   Variable load : str -> value.          (* importlib.import_module(".<name>", "dippy.cli"): deterministic *)
@@ -119,6 +153,59 @@ Section Cache.
     end.
 
   Definition after (h : list query) (s : state) : state := fold_left (fun s q => fst (step s q)) h s.
+
+  (* What one call leaves behind (the residue oracle of harness/c18.py measures exactly this on the real
+     process: it snapshots every object reachable from the dippy modules before and after each call).
+     The handler cache is compared by its keys in order (under Inv the values are a function of the keys). *)
+  Definition hmode_eqb (a b : hmode) : bool :=
+    match a, b with HClaude, HClaude | HGemini, HGemini | HCursor, HCursor => true | _, _ => false end.
+  Definition logcfg_eqb (a b : option (str * bool)) : bool :=
+    match a, b with
+    | None, None => true
+    | Some (p, f), Some (p', f') => str_eqb p p' && Bool.eqb f f'
+    | _, _ => false
+    end.
+  Definition changed (s s' : state) : list comp :=
+    (if strs_eqb (map fst (lru s)) (map fst (lru s')) then [] else [CLru]) ++
+    (if hmode_eqb (mode s) (mode s') then [] else [CMode]) ++
+    (if logcfg_eqb (logcfg s) (logcfg s') then [] else [CLogCfg]) ++
+    (if Bool.eqb (logdis s) (logdis s') then [] else [CLogDis]).
+  Definition residue (s : state) (q : query) : list comp := changed s (fst (step s q)).
+  (* per call of a history: what it changed *)
+  Fixpoint residues (s : state) (h : list query) : list (list comp) :=
+    match h with
+    | [] => []
+    | q :: r => residue s q :: residues (fst (step s q)) r
+    end.
+
+  (* Where a call appends a line to the decision log, and whether that line may carry the full command
+     (C15 in a process that decides more than once): log_decision writes to the configured destination
+     unless logging is off, was switched off by an earlier failure, or the write fails. *)
+  Definition writes (s : state) (fault : bool) : option (str * bool) :=
+    match logcfg s with
+    | None => None
+    | Some l => if logdis s then None else if fault then None else Some l
+    end.
+  Definition effect (s : state) (q : query) : option (str * bool) :=
+    match q with
+    | QMain det x log cf df =>
+        let s1 := match explicit with Some _ => s | None => set_mode det s end in
+        writes (fst (analyze x (configure log cf s1))) df
+    | QCheck x => writes (fst (analyze x s)) false
+    | QLogDecision fl => writes s fl
+    | _ => None
+    end.
+  Fixpoint effects (s : state) (h : list query) : list (option (str * bool)) :=
+    match h with
+    | [] => []
+    | q :: r => effect s q :: effects (fst (step s q)) r
+    end.
+  (* what the same main() run appends in a process that has done nothing before: read off its own arguments *)
+  Definition main_effect_spec (log : option (str * bool)) (cfg_fault dec_fault : bool) : option (str * bool) :=
+    match log with
+    | None => None
+    | Some l => if cfg_fault then None else if dec_fault then None else Some l
+    end.
 
   (* the hit/miss sequence of a trace of _load_handler calls (what cache_info() counts) *)
   Fixpoint trace (c : cache) (ms : list str) : list bool * cache :=
